@@ -25,7 +25,8 @@ N0 == N("0", Num(0))
 N1 == N("1", Num(1))
 NumLeaves == {N0, N1, N("2", Num(2)), N("3", Num(3)), N("10", Num(10)), N("0.5", Fin(FALSE, 1, 2)),
               N("1.5", Fin(FALSE, 3, 2)), N("2.5", Fin(FALSE, 5, 2)), N("0.125", Fin(FALSE, 1, 8)),
-              N("1000000", Num(1000000)), N("10000000000000000000000", P10(FALSE, 22)), N("0.0000001", P10(FALSE, -7))}
+              N("1000000", Num(1000000)), N("10000000000000000000000", P10(FALSE, 22)), N("0.0000001", P10(FALSE, -7)),
+              N("4503599627370497", Big(FALSE, 1)), N("9007199254740991", Big(FALSE, 2)), N("0.49999999999999994", Big(FALSE, 3))}
 SmallNums == {N0, N1, N("2", Num(2)), N("0.5", Fin(FALSE, 1, 2)), N("2.5", Fin(FALSE, 5, 2))}
 \* special values as tiny expressions
 XNaN == F1A("number", L("x"))
@@ -119,8 +120,11 @@ Chain3(u_) == {BinA(o3, BinA(o2, BinA(o1, OpA, OpB), OpC), OpD) : o1 \in AllOps,
           \cup {BinA(o1, OpA, BinA(o3, BinA(o2, OpB, OpC), OpD)) : o1 \in AllOps, o2 \in AllOps, o3 \in AllOps}
           \cup {BinA(o3, BinA(o1, OpA, BinA(o2, OpB, OpC)), OpD) : o1 \in AllOps, o2 \in AllOps, o3 \in AllOps}
 MixedOperands == {L("7"), F2A("concat", L("1"), L("2")), Rel1("vnum"), Path("abs", <<St("a"), St("vneg")>>), Fn0A("true"),
-                  F1A("string-length", L("abc")), N("0.5", Fin(FALSE, 1, 2))}
-Chain2Mixed(u_) == UNION {Chain2(x, y, OpC) : x \in MixedOperands, y \in {OpB, Rel1("vnum"), L("2")}}
+                  F1A("string-length", L("abc")), N("0.5", Fin(FALSE, 1, 2)),
+                  Path("rel", <<St("..")>>), Path("rel", <<St("vnum"), St("..")>>), Path("rel", <<St(".")>>), Path("cur", << >>),
+                  Path("rel", <<StP("a", <<Pred("k", L("x"))>>)>>)}
+Chain2Mixed(u_) == UNION {Chain2(x, y, OpC) : x \in MixedOperands, y \in {OpB, Rel1("vnum"), L("2"), Path("rel", <<St("..")>>)}}
+                   \cup UNION {Chain2(OpA, x, OpC) \cup Chain2(OpA, OpB, x) : x \in {Path("rel", <<St("..")>>), Path("rel", <<St("a"), St("..")>>), Path("rel", <<St(".")>>)}}
 
 Family(i) ==
   CASE i = 1 -> D1Bin(ArithOps)
